@@ -25,24 +25,41 @@ class Violation(Exception):
         self.detail = detail
 
 
+# other spellings of the same primitive type (accepted by both parsers; qualifiers do not make a new ctype)
+ALIASES = {
+    'int': ['int', 'signed int', 'signed', 'const int', 'int const', 'volatile int'],
+    'long': ['long', 'long int', 'signed long', 'signed long int', 'long signed', 'const long'],
+    'unsigned short': ['unsigned short', 'unsigned short int', 'short unsigned', 'short unsigned int',
+                       'const unsigned short'],
+    'signed char': ['signed char', 'const signed char'],
+    'char': ['char', 'const char', 'char const'],
+    'double': ['double', 'const double'],
+    'uint64_t': ['uint64_t', 'const uint64_t'],
+}
+
+
 # ---- type descriptions (JSON-able) -> C type strings ----
-def render(d, inner=''):
+def render(d, inner='', spell=None):
+    """`spell` (an int) selects among equivalent spellings of the primitive types"""
     k = d[0]
+    if k == 'prim' and spell is not None and d[1] in ALIASES:
+        al = ALIASES[d[1]]
+        return al[(spell + len(inner)) % len(al)] + ((' ' + inner) if inner else '')
     if k in ('prim', 'agg', 'tdef'):
         return d[1] + ((' ' + inner) if inner else '')
     if k == 'void':
         return 'void' + ((' ' + inner) if inner else '')
     if k == 'ptr':
         if d[1][0] in ('arr', 'func'):
-            return render(d[1], '(*%s)' % inner)
-        return render(d[1], '*' + inner)
+            return render(d[1], '(*%s)' % inner, spell)
+        return render(d[1], '*' + inner, spell)
     if k == 'arr':
-        return render(d[1], inner + '[%s]' % ('' if d[2] is None else d[2]))
+        return render(d[1], inner + '[%s]' % ('' if d[2] is None else d[2]), spell)
     if k == 'func':
-        args = ', '.join(render(a) for a in d[2])
+        args = ', '.join(render(a, '', None if spell is None else spell + 1 + j) for j, a in enumerate(d[2]))
         if d[3]:
             args = args + ', ...' if args else '...'
-        return render(d[1], '(*%s)(%s)' % (inner, args or 'void'))
+        return render(d[1], '(*%s)(%s)' % (inner, args or 'void'), spell)
     raise HarnessError('bad desc %r' % (d,))
 
 
@@ -297,8 +314,11 @@ class Run(object):
 
     def build_string(self, entry, d):
         kind, ffi = entry
-        s = render(d)
-        return self.checked(ffi.typeof(s), d, 'typeof(string) through %s' % kind)
+        spell = self.salt if self.salt % 3 == 0 else None
+        s = render(d, '', spell)
+        if spell is not None:
+            self.out.probe('type_string_with_alternative_spellings')
+        return self.checked(ffi.typeof(s), d, 'typeof(string %r) through %s' % (s, kind))
 
     def build_direct(self, entry, d):
         """through the backend constructors, component by component (no per-FFI cache involved)"""
